@@ -160,9 +160,6 @@ Proof.
   destruct (a_data a) as [h| |]; try discriminate. exists h. reflexivity.
 Qed.
 
-Lemma array_raw_stored a : arr_ok a = true -> array_raw (write_ndarray a) = VArr a.
-Proof. intros H. unfold array_raw. rewrite array_to_np_write by exact H. reflexivity. Qed.
-
 Lemma write_ndarray_data_opaque a : arr_ok a = true -> exists h, a_data (s_arr (write_ndarray a)) = AOpaque h.
 Proof.
   intros H. destruct (arr_ok_opaque a H) as [h Hh]. unfold write_ndarray.
@@ -174,6 +171,9 @@ Proof.
   intros H. unfold array_value. destruct (write_ndarray_data_opaque a H) as [h Hh]. rewrite Hh.
   rewrite array_to_np_write by exact H. reflexivity.
 Qed.
+
+Lemma array_raw_stored a : arr_ok a = true -> array_raw (write_ndarray a) = VArr a.
+Proof. apply array_value_stored_arr. Qed.
 
 (* ------------------------------------------------------------------ the attribute loop *)
 Section AttrLoop.
